@@ -334,12 +334,20 @@ def check(case):
                 hf = compile_hessian(e, V)
                 classes.append(f"{tag}:grad:{getattr(gf, '__name__', '?')}")
                 classes.append(f"{tag}:hess:{getattr(hf, '__name__', '?')}")
+                first = {"g": np.array(gf(x.copy()), dtype=float), "j": np.array(jf(x.copy()), dtype=float),
+                         "h": np.array(hf(x.copy()), dtype=float)}
                 outs[tag] = {
+                    # every callable is evaluated a SECOND time at the same point; the second answer is the one judged
                     "compile_gradient": np.asarray(gf(x.copy()), dtype=float).reshape(-1),
                     "compile_jacobian": np.asarray(jf(x.copy()), dtype=float).reshape(-1),
                     "CompiledExpression.gradient": np.asarray(ce.gradient(x.copy()), dtype=float).reshape(-1),
                     "compile_hessian": np.asarray(hf(x.copy()), dtype=float),
                 }
+                for key, name in (("g", "compile_gradient"), ("j", "compile_jacobian"), ("h", "compile_hessian")):
+                    a1, a2 = first[key].reshape(-1), outs[tag][name].reshape(-1)
+                    if not np.array_equal(a1, a2, equal_nan=True):
+                        return Result.violation(f"repeat-call-differs:{name}", f"{tag}: first call {a1.tolist()}, second call at the "
+                                                                               f"same point {a2.tolist()}; {desc}", classes)
             except Exception as ex:
                 return Result.violation(f"raises:{exc_label(ex)}", f"{tag}: {ex!r}; {desc}", classes)
         for tag, o in outs.items():
